@@ -1,4 +1,4 @@
-From Coq Require Import ZArith QArith Qround Qabs Qminmax List Bool Lia Lqa.
+From Coq Require Import ZArith QArith Qround Qabs Qminmax Qreduction List Bool Lia Lqa ZifyBool.
 From PV Require Import lib.Cases C01_Model.
 Import ListNotations.
 Open Scope Q_scope.
@@ -105,27 +105,55 @@ Open Scope Z_scope.
 Definition in_box (b : box) (y x : Z) := iymin b <= y < iymax b /\ ixmin b <= x < ixmax b.
 Definition in_img (ny nx y x : Z) := 0 <= y < ny /\ 0 <= x < nx.
 
+Definition ov_none_cond (b : box) ny nx :=
+  (nx <=? ixmin b) || (ny <=? iymin b) || (ixmax b <=? 0) || (iymax b <=? 0) || (ny <=? 0) || (nx <=? 0).
+
+Lemma ov_cond_false b ny nx : ov_none_cond b ny nx = false ->
+  ixmin b < nx /\ iymin b < ny /\ 0 < ixmax b /\ 0 < iymax b /\ 0 < ny /\ 0 < nx.
+Proof.
+  unfold ov_none_cond. rewrite !orb_false_iff, !Z.leb_gt. tauto.
+Qed.
+Lemma ov_cond_true b ny nx : ov_none_cond b ny nx = true ->
+  nx <= ixmin b \/ ny <= iymin b \/ ixmax b <= 0 \/ iymax b <= 0 \/ ny <= 0 \/ nx <= 0.
+Proof.
+  unfold ov_none_cond. rewrite !orb_true_iff, !Z.leb_le. tauto.
+Qed.
+
+(* None iff the (non-empty) box and the image have no pixel in common: any ny nx in Z *)
 Lemma overlap_none (b : box) ny nx :
   ixmin b < ixmax b -> iymin b < iymax b ->
   (overlap_slices b ny nx = None <-> forall y x, ~ (in_box b y x /\ in_img ny nx y x)).
 Proof.
-  intros Hx Hy. unfold overlap_slices, in_box, in_img.
-  destruct ((nx <=? ixmin b) || (ny <=? iymin b) || (ixmax b <=? 0) || (iymax b <=? 0)) eqn:E.
-  - split; [intros _ y x|reflexivity]. lia.
-  - split; [discriminate|]. intros H. exfalso.
-    apply (H (Z.max (iymin b) 0) (Z.max (ixmin b) 0)). lia.
+  intros Hx Hy. unfold overlap_slices. fold (ov_none_cond b ny nx).
+  destruct (ov_none_cond b ny nx) eqn:E.
+  - apply ov_cond_true in E. split; [intros _ y x|reflexivity]. unfold in_box, in_img. lia.
+  - apply ov_cond_false in E. split; [discriminate|]. intros H. exfalso.
+    apply (H (Z.max (iymin b) 0) (Z.max (ixmin b) 0)). clear H. unfold in_box, in_img. lia.
 Qed.
 
+(* the slices enumerate exactly the common pixels; small = large - box origin (any box, any shape) *)
 Lemma overlap_some (b : box) ny nx ly0 ly1 lx0 lx1 sy0 sy1 sx0 sx1 :
   overlap_slices b ny nx = Some (((ly0, ly1), (lx0, lx1)), ((sy0, sy1), (sx0, sx1))) ->
   (forall y x, (ly0 <= y < ly1 /\ lx0 <= x < lx1) <-> (in_box b y x /\ in_img ny nx y x)) /\
   sy0 = ly0 - iymin b /\ sy1 = ly1 - iymin b /\ sx0 = lx0 - ixmin b /\ sx1 = lx1 - ixmin b /\
-  ly0 < ly1 /\ lx0 < lx1.
+  0 <= ly0 /\ ly1 <= ny /\ 0 <= lx0 /\ lx1 <= nx /\
+  0 <= sy0 /\ sy1 <= iymax b - iymin b /\ 0 <= sx0 /\ sx1 <= ixmax b - ixmin b /\
+  (ixmin b < ixmax b -> iymin b < iymax b -> ly0 < ly1 /\ lx0 < lx1).
 Proof.
-  unfold overlap_slices, in_box, in_img.
-  destruct ((nx <=? ixmin b) || (ny <=? iymin b) || (ixmax b <=? 0) || (iymax b <=? 0)) eqn:E; [discriminate|].
-  intros [= <- <- <- <- <- <- <- <-]. repeat split; try lia.
-  intros y x. lia.
+  unfold overlap_slices. fold (ov_none_cond b ny nx).
+  destruct (ov_none_cond b ny nx) eqn:E; [discriminate|]. apply ov_cond_false in E.
+  intros [= <- <- <- <- <- <- <- <-]. unfold in_box, in_img.
+  split; [intros y x; lia|]. repeat split; lia.
+Qed.
+
+(* an empty box never yields None-or-pixels confusion: whatever is returned selects no pixel *)
+Lemma overlap_empty_box (b : box) ny nx ly0 ly1 lx0 lx1 s :
+  (ixmin b = ixmax b \/ iymin b = iymax b) ->
+  overlap_slices b ny nx = Some (((ly0, ly1), (lx0, lx1)), s) ->
+  forall y x, ~ (ly0 <= y < ly1 /\ lx0 <= x < lx1).
+Proof.
+  intros He H. destruct s as [[sy0 sy1] [sx0 sx1]]. apply overlap_some in H as (H & _).
+  intros y x Hyx. apply H in Hyx as [Hb _]. unfold in_box in Hb. lia.
 Qed.
 
 Lemma overlap_shift (b : box) ny nx ky kx :
@@ -139,10 +167,16 @@ Lemma overlap_shift (b : box) ny nx ky kx :
     | None => None
     end.
 Proof.
-  intros. unfold overlap_slices. cbn [ixmin ixmax iymin iymax].
-  destruct ((nx <=? ixmin b) || (ny <=? iymin b) || (ixmax b <=? 0) || (iymax b <=? 0)) eqn:E1; [lia|].
-  destruct ((NX <=? ixmin b + kx) || (NY <=? iymin b + ky) || (ixmax b + kx <=? 0) || (iymax b + ky <=? 0)) eqn:E2; [lia|].
-  repeat f_equal; lia.
+  intros. set (b' := mkbox (ixmin b + kx) (ixmax b + kx) (iymin b + ky) (iymax b + ky)).
+  unfold overlap_slices. fold (ov_none_cond b ny nx). fold (ov_none_cond b' NY NX).
+  destruct (ov_none_cond b ny nx) eqn:E1; [exfalso; apply ov_cond_true in E1; lia|]. apply ov_cond_false in E1.
+  destruct (ov_none_cond b' NY NX) eqn:E2;
+    [exfalso; apply ov_cond_true in E2; subst b'; cbn [ixmin ixmax iymin iymax] in E2; lia|].
+  subst b'; cbn [ixmin ixmax iymin iymax].
+  repeat match goal with
+         | |- Some _ = Some _ => f_equal
+         | |- (_, _) = (_, _) => apply (f_equal2 pair)
+         end; lia.
 Qed.
 
 (* ---------- union / intersection ---------- *)
@@ -191,30 +225,123 @@ Proof.
     destruct (mode =? 1) eqn:E4; [intros [= <- <-]; lia|]. intros [= <- <-]. lia.
 Qed.
 
+Open Scope Q_scope.
 (* ---------- sub-pixel counting ---------- *)
+Lemma Qltb_lt a b : Qltb a b = true <-> a < b.
+Proof.
+  unfold Qltb. rewrite negb_true_iff. split.
+  - intros E. apply Qnot_le_lt. intros Hle. apply Qle_bool_iff in Hle. congruence.
+  - intros Hlt. destruct (Qle_bool b a) eqn:E; [|reflexivity].
+    apply Qle_bool_iff in E. exfalso. apply (Qlt_not_le _ _ Hlt E).
+Qed.
+Lemma Qltb_ge a b : Qltb a b = false <-> b <= a.
+Proof.
+  unfold Qltb. rewrite negb_false_iff. apply Qle_bool_iff.
+Qed.
+
+Lemma Qltb_comp a a' b b' : a == a' -> b == b' -> Qltb a b = Qltb a' b'.
+Proof. intros Ha Hb. unfold Qltb. rewrite Ha, Hb. reflexivity. Qed.
+
+(* [inside] only depends on the values of its coordinates *)
+Lemma inside_comp sh x x' y y' : x == x' -> y == y' -> inside sh x y = inside sh x' y'.
+Proof.
+  intros Hx Hy. destruct sh as [r|a b c s|w h c s]; cbn [inside].
+  - apply Qltb_comp; [rewrite Hx, Hy|]; reflexivity.
+  - apply Qltb_comp; [rewrite Hx, Hy|]; reflexivity.
+  - f_equal; (apply Qltb_comp; [rewrite Hx, Hy|]; reflexivity).
+Qed.
+
+Definition cnt (sh : shape) (l : list (Q * Q)) : Z :=
+  Z.of_nat (length (filter (fun p => inside sh (fst p) (snd p)) l)).
+
+Lemma cnt_nil sh : cnt sh [] = 0%Z.
+Proof. reflexivity. Qed.
+Lemma cnt_cons sh p l : cnt sh (p :: l) = ((if inside sh (fst p) (snd p) then 1 else 0) + cnt sh l)%Z.
+Proof. unfold cnt. cbn [filter]. destruct (inside sh (fst p) (snd p)); cbn [length]; lia. Qed.
+Lemma cnt_app sh l1 l2 : cnt sh (l1 ++ l2) = (cnt sh l1 + cnt sh l2)%Z.
+Proof. unfold cnt. rewrite filter_app, app_length. lia. Qed.
+
+Lemma cnt_map_ext {A} sh (f g : A -> Q * Q) (l : list A) :
+  (forall a, In a l -> fst (f a) == fst (g a) /\ snd (f a) == snd (g a)) ->
+  cnt sh (map f l) = cnt sh (map g l).
+Proof.
+  induction l as [|a l IH]; intros H; [reflexivity|].
+  cbn [map]. rewrite !cnt_cons, IH by (intros; apply H; right; assumption).
+  destruct (H a (or_introl eq_refl)) as [H1 H2]. rewrite (inside_comp sh _ _ _ _ H1 H2). reflexivity.
+Qed.
+
+Lemma inj_S_Q k : inject_Z (Z.of_nat (S k)) == inject_Z (Z.of_nat k) + 1.
+Proof. rewrite Nat2Z.inj_succ. unfold Z.succ. rewrite inject_Z_plus. reflexivity. Qed.
+
+Definition lin (b d : Q) (j : nat) : Q := b + (inject_Z (Z.of_nat j) + 1) * d.
+
+(* inner loop: y runs over yb + (j+1)*dy, j = k .. k+n-1 *)
+Lemma loop_y_cnt sh n : forall k x y yb dy frac,
+  y == yb + inject_Z (Z.of_nat k) * dy ->
+  loop_y sh n x y dy frac =
+  (frac + cnt sh (map (fun j => (x, lin yb dy j)) (seq k n)))%Z.
+Proof.
+  induction n as [|n IH]; intros k x y yb dy frac Hy; cbn [loop_y seq map].
+  - rewrite cnt_nil. lia.
+  - rewrite cnt_cons. cbn [fst snd].
+    assert (E : Qred (y + dy) == lin yb dy k)
+      by (unfold lin; rewrite Qred_correct, Hy; ring).
+    rewrite (inside_comp sh x x _ _ (Qeq_refl x) E).
+    rewrite (IH (S k) x _ yb dy) by (rewrite E; unfold lin; rewrite inj_S_Q; reflexivity).
+    destruct (inside sh x (lin yb dy k)); lia.
+Qed.
+
+Lemma loop_x_cnt sh n ny : forall k x xb dx y0 dy frac,
+  x == xb + inject_Z (Z.of_nat k) * dx ->
+  loop_x sh n ny x dx y0 dy frac =
+  (frac + cnt sh (flat_map (fun i => map (fun j => (lin xb dx i, lin (y0 - half * dy) dy j))
+                                         (seq 0 ny)) (seq k n)))%Z.
+Proof.
+  induction n as [|n IH]; intros k x xb dx y0 dy frac Hx; cbn [loop_x seq flat_map].
+  - rewrite cnt_nil. lia.
+  - assert (E : Qred (x + dx) == lin xb dx k)
+      by (unfold lin; rewrite Qred_correct, Hx; ring).
+    rewrite (IH (S k) _ xb) by (rewrite E; unfold lin; rewrite inj_S_Q; reflexivity).
+    rewrite (loop_y_cnt sh ny 0 _ _ (y0 - half * dy)) by (cbn; ring).
+    rewrite cnt_app.
+    rewrite (cnt_map_ext sh (fun j => (Qred (x + dx), lin (y0 - half * dy) dy j))
+               (fun j => (lin xb dx k, lin (y0 - half * dy) dy j)))
+      by (intros; cbn [fst snd]; split; [exact E|reflexivity]).
+    lia.
+Qed.
+
+(* the kernel loop counts exactly the sub-pixel centres (i+1/2, j+1/2)/s of the pixel that lie
+   strictly inside the shape *)
+Lemma single_subpixel_is_count sh x0 y0 x1 y1 s :
+  single_subpixel sh x0 y0 x1 y1 s = subpix_count sh x0 y0 x1 y1 s.
+Proof.
+  unfold single_subpixel, subpix_count, sub_centres. fold (cnt sh).
+  rewrite (loop_x_cnt sh _ _ 0 _ (x0 - half * ((x1 - x0) / inject_Z s))) by (cbn; ring).
+  rewrite Z.add_0_l.
+  fold (cnt sh (flat_map (fun i => map (fun j => (sub_coord x0 x1 s i, sub_coord y0 y1 s j))
+                                       (seq 0 (Z.to_nat s))) (seq 0 (Z.to_nat s)))).
+  generalize (seq 0 (Z.to_nat s)) at 2 4. intros li.
+  induction li as [|i li IH]; [reflexivity|].
+  cbn [flat_map]. rewrite !cnt_app, IH. f_equal.
+  apply cnt_map_ext. intros j _. cbn [fst snd]. unfold sub_coord, lin, half. split; ring.
+Qed.
+
+(* ---------- the set of sub-pixel centres ---------- *)
 Lemma flat_map_length_const {A B} (f : A -> list B) (l : list A) k :
   (forall a, length (f a) = k) -> length (flat_map f l) = (length l * k)%nat.
 Proof. intros H. induction l as [|a l IH]; cbn; [reflexivity|]. rewrite app_length, H, IH. reflexivity. Qed.
 
-Lemma sub_centres_length x0 y0 s : length (sub_centres x0 y0 s) = (Z.to_nat s * Z.to_nat s)%nat.
+Lemma sub_centres_length x0 y0 x1 y1 s :
+  length (sub_centres x0 y0 x1 y1 s) = (Z.to_nat s * Z.to_nat s)%nat.
 Proof.
   unfold sub_centres. rewrite (flat_map_length_const _ _ (Z.to_nat s)).
   - rewrite seq_length. reflexivity.
   - intros a. rewrite map_length, seq_length. reflexivity.
 Qed.
 
-(* the weight numerator is the number of sub-pixel centres strictly inside, so the weight
-   count / s^2 lies in [0, 1] *)
-Lemma subpix_count_range sh x0 y0 s : 0 <= s -> 0 <= subpix_count sh x0 y0 s <= s * s.
-Proof.
-  intros Hs. unfold subpix_count. split; [lia|].
-  pose proof (filter_length_le (fun p => inside sh (fst p) (snd p)) (sub_centres x0 y0 s)) as H.
-  rewrite sub_centres_length in H. nia.
-Qed.
-
-Lemma in_sub_centres x0 y0 s p :
-  In p (sub_centres x0 y0 s) <->
-  exists i j, (i < Z.to_nat s)%nat /\ (j < Z.to_nat s)%nat /\ p = (sub_coord x0 s i, sub_coord y0 s j).
+Lemma in_sub_centres x0 y0 x1 y1 s p :
+  In p (sub_centres x0 y0 x1 y1 s) <->
+  exists i j, (i < Z.to_nat s)%nat /\ (j < Z.to_nat s)%nat /\ p = (sub_coord x0 x1 s i, sub_coord y0 y1 s j).
 Proof.
   unfold sub_centres. rewrite in_flat_map. split.
   - intros (i & Hi & Hp). apply in_map_iff in Hp as (j & <- & Hj). apply in_seq in Hi, Hj.
@@ -223,43 +350,657 @@ Proof.
     apply in_map_iff. exists j. split; [reflexivity|apply in_seq; lia].
 Qed.
 
-(* monotonicity: a shape contained in another never has the larger count *)
-Lemma filter_length_mono {A} (f g : A -> bool) l :
-  (forall a, In a l -> f a = true -> g a = true) -> (length (filter f l) <= length (filter g l))%nat.
+(* every sub-pixel centre lies strictly inside its pixel *)
+Lemma sub_coord_between x0 x1 s i : x0 < x1 -> (i < Z.to_nat s)%nat -> x0 < sub_coord x0 x1 s i < x1.
 Proof.
-  induction l as [|a l IH]; intros H; cbn; [lia|].
-  assert (IH' : (length (filter f l) <= length (filter g l))%nat) by (apply IH; intros; apply H; cbn; auto).
-  destruct (f a) eqn:Fa.
-  - rewrite (H a (or_introl eq_refl) Fa). cbn. lia.
-  - destruct (g a); cbn; lia.
+  intros Hw Hi. unfold sub_coord, half.
+  assert (Hs : (Z.of_nat i + 1 <= s)%Z) by lia.
+  assert (Ht0 : 0 <= inject_Z (Z.of_nat i)) by (change 0 with (inject_Z 0); rewrite <- Zle_Qle; lia).
+  assert (Ht1 : inject_Z (Z.of_nat i) + 1 <= inject_Z s)
+    by (change 1 with (inject_Z 1); rewrite <- inject_Z_plus, <- Zle_Qle; exact Hs).
+  set (t := inject_Z (Z.of_nat i)) in *. set (S := inject_Z s) in *.
+  assert (HS : 0 < S) by lra.
+  assert (Hq : (x1 - x0) / S * S == x1 - x0) by (field; lra).
+  set (q := (x1 - x0) / S) in *.
+  assert (Hq0 : 0 < q) by nra.
+  split; nra.
 Qed.
 
-Lemma subpix_count_mono sh1 sh2 x0 y0 s :
-  (forall x y, inside sh1 x y = true -> inside sh2 x y = true) ->
-  subpix_count sh1 x0 y0 s <= subpix_count sh2 x0 y0 s.
+Lemma sub_centres_between x0 y0 x1 y1 s p :
+  x0 < x1 -> y0 < y1 -> In p (sub_centres x0 y0 x1 y1 s) ->
+  x0 < fst p < x1 /\ y0 < snd p < y1.
 Proof.
-  intros H. unfold subpix_count. apply inj_le, filter_length_mono. intros p _. apply H.
+  intros Hx Hy Hp. apply in_sub_centres in Hp as (i & j & Hi & Hj & ->). cbn [fst snd].
+  split; apply sub_coord_between; assumption.
 Qed.
 
-Lemma Qltb_lt a b : Qltb a b = true <-> (a < b)%Q.
+(* ---------- counting ---------- *)
+Lemma subpix_count_cnt sh x0 y0 x1 y1 s : subpix_count sh x0 y0 x1 y1 s = cnt sh (sub_centres x0 y0 x1 y1 s).
+Proof. reflexivity. Qed.
+
+Lemma cnt_all sh l : (forall p, In p l -> inside sh (fst p) (snd p) = true) -> cnt sh l = Z.of_nat (length l).
 Proof.
-  unfold Qltb. rewrite negb_true_iff. split.
-  - intros E. apply Qnot_le_lt. intros Hle. apply Qle_bool_iff in Hle. congruence.
-  - intros Hlt. destruct (Qle_bool b a) eqn:E; [|reflexivity].
-    apply Qle_bool_iff in E. exfalso. apply (Qlt_not_le _ _ Hlt E).
+  induction l as [|p l IH]; intros H; [reflexivity|].
+  rewrite cnt_cons, (H p (or_introl eq_refl)), IH by (intros q Hq; apply H; right; exact Hq).
+  cbn [length]. lia.
+Qed.
+Lemma cnt_none sh l : (forall p, In p l -> inside sh (fst p) (snd p) = false) -> cnt sh l = 0%Z.
+Proof.
+  induction l as [|p l IH]; intros H; [reflexivity|].
+  rewrite cnt_cons, (H p (or_introl eq_refl)), IH by (intros q Hq; apply H; right; exact Hq).
+  reflexivity.
+Qed.
+Lemma cnt_range sh l : (0 <= cnt sh l <= Z.of_nat (length l))%Z.
+Proof.
+  induction l as [|p l IH]; [cbn; lia|]. rewrite cnt_cons. cbn [length].
+  destruct (inside sh (fst p) (snd p)); lia.
+Qed.
+(* outer minus inner = number of centres in outer and not in inner, when inner is contained in outer *)
+Definition cnt_diff (o i : shape) (l : list (Q * Q)) : Z :=
+  Z.of_nat (length (filter (fun p => inside o (fst p) (snd p) && negb (inside i (fst p) (snd p))) l)).
+Lemma cnt_sub o i l :
+  (forall p, In p l -> inside i (fst p) (snd p) = true -> inside o (fst p) (snd p) = true) ->
+  (cnt o l - cnt i l = cnt_diff o i l)%Z.
+Proof.
+  unfold cnt_diff. induction l as [|p l IH]; intros H; [reflexivity|].
+  rewrite !cnt_cons. cbn [filter].
+  assert (IH' := IH (fun q Hq => H q (or_intror Hq))).
+  specialize (H p (or_introl eq_refl)).
+  destruct (inside i (fst p) (snd p)) eqn:Ei.
+  - rewrite (H eq_refl). cbn [negb andb]. lia.
+  - destruct (inside o (fst p) (snd p)); cbn [negb andb length]; lia.
+Qed.
+Lemma cnt_diff_range o i l : (0 <= cnt_diff o i l <= Z.of_nat (length l))%Z.
+Proof.
+  unfold cnt_diff. induction l as [|p l IH]; [cbn; lia|]. cbn [filter length].
+  destruct (inside o (fst p) (snd p) && negb (inside i (fst p) (snd p))); cbn [length]; lia.
 Qed.
 
-(* annulus parameter relations enforced by the constructors imply containment *)
-Lemma circle_contained r1 r2 x y : (0 <= r1)%Q -> (r1 <= r2)%Q ->
+(* the weight count/s^2 of a pixel lies in [0,1] *)
+Lemma subpix_count_range sh x0 y0 x1 y1 s : (0 <= s -> 0 <= subpix_count sh x0 y0 x1 y1 s <= s * s)%Z.
+Proof.
+  intros Hs. rewrite subpix_count_cnt. pose proof (cnt_range sh (sub_centres x0 y0 x1 y1 s)) as H.
+  rewrite sub_centres_length in H. nia.
+Qed.
+
+(* center == subpixels = 1: the single centre of the pixel *)
+Lemma subpix_count_1 sh x0 y0 x1 y1 :
+  subpix_count sh x0 y0 x1 y1 1 =
+  if inside sh (x0 + (x1 - x0) / 2) (y0 + (y1 - y0) / 2) then 1%Z else 0%Z.
+Proof.
+  rewrite subpix_count_cnt. unfold sub_centres. change (Z.to_nat 1) with 1%nat. cbn [seq flat_map map app].
+  rewrite cnt_cons, cnt_nil. cbn [fst snd].
+  rewrite (inside_comp sh _ (x0 + (x1 - x0) / 2) _ (y0 + (y1 - y0) / 2)).
+  - destruct (inside sh _ _); reflexivity.
+  - unfold sub_coord, half. cbn. field.
+  - unfold sub_coord, half. cbn. field.
+Qed.
+
+(* ---------- triangle inequality on squares ---------- *)
+Lemma Qsq_nonneg z : 0 <= z * z.
+Proof.
+  destruct (Qlt_le_dec z 0) as [H|H].
+  - setoid_replace (z * z) with ((- z) * (- z)) by ring. apply Qmult_le_0_compat; lra.
+  - apply Qmult_le_0_compat; assumption.
+Qed.
+Lemma tri_lt ax ay bx by_ A B :
+  0 <= A -> 0 <= B -> ax * ax + ay * ay < A * A -> bx * bx + by_ * by_ <= B * B ->
+  (ax + bx) * (ax + bx) + (ay + by_) * (ay + by_) < (A + B) * (A + B).
+Proof.
+  intros HA HB Ha Hb.
+  set (t := ax * bx + ay * by_).
+  set (a2 := ax * ax + ay * ay) in *. set (b2 := bx * bx + by_ * by_) in *.
+  assert (Ha0 : 0 <= a2) by (unfold a2; pose proof (Qsq_nonneg ax); pose proof (Qsq_nonneg ay); lra).
+  assert (Hb0 : 0 <= b2) by (unfold b2; pose proof (Qsq_nonneg bx); pose proof (Qsq_nonneg by_); lra).
+  assert (CS : t * t <= a2 * b2).
+  { pose proof (Qsq_nonneg (ax * by_ - ay * bx)) as Z. set (z := ax * by_ - ay * bx) in *.
+    assert (E0 : a2 * b2 == t * t + z * z) by (unfold a2, b2, t, z; ring). rewrite E0. lra. }
+  assert (P : a2 * b2 <= (A * A) * (B * B)) by nra.
+  assert (T : t <= A * B).
+  { destruct (Qlt_le_dec (A * B) t) as [Hlt|Hle]; [|exact Hle]. exfalso.
+    assert (0 <= A * B) by nra. assert ((A * B) * (A * B) < t * t) by nra. nra. }
+  assert (E : (ax + bx) * (ax + bx) + (ay + by_) * (ay + by_) == a2 + b2 + 2 * t) by (unfold a2, b2, t; ring).
+  rewrite E. nra.
+Qed.
+
+(* ---------- [inside] as propositions ---------- *)
+Lemma inside_circle r x y : inside (Circle r) x y = true <-> x * x + y * y < r * r.
+Proof. cbn [inside]. apply Qltb_lt. Qed.
+Lemma not_inside_circle r x y : inside (Circle r) x y = false <-> r * r <= x * x + y * y.
+Proof. cbn [inside]. apply Qltb_ge. Qed.
+
+Lemma div_sq_mul t a : ~ a == 0 -> t / (a * a) * (a * a) == t.
+Proof. intros Ha. field. exact Ha. Qed.
+
+(* a point inside the ellipse lies inside the circle of radius max(a,b), up to the factor
+   k = c^2+s^2 by which the float rotation scales lengths *)
+Lemma ell_inside_bound a b c s x y :
+  0 < a -> 0 < b -> inside (Ellipse a b c s) x y = true ->
+  (x * x + y * y) * (c * c + s * s) < Qmax a b * Qmax a b.
+Proof.
+  intros Ha Hb H. cbn [inside] in H. apply Qltb_lt in H.
+  set (xt := y * s + x * c) in *. set (yt := y * c - x * s) in *.
+  assert (E : (x * x + y * y) * (c * c + s * s) == xt * xt + yt * yt) by (unfold xt, yt; ring).
+  rewrite E.
+  pose proof (div_sq_mul (xt * xt) a ltac:(lra)) as Eu.
+  pose proof (div_sq_mul (yt * yt) b ltac:(lra)) as Ev.
+  set (u := xt * xt / (a * a)) in *. set (v := yt * yt / (b * b)) in *.
+  pose proof (Q.le_max_l a b) as Ra. pose proof (Q.le_max_r a b) as Rb.
+  set (R := Qmax a b) in *.
+  assert (Ha2 : 0 < a * a) by nra. assert (Hb2 : 0 < b * b) by nra.
+  assert (Hu : 0 <= u) by nra. assert (Hv : 0 <= v) by nra.
+  assert (HRa : a * a <= R * R) by nra. assert (HRb : b * b <= R * R) by nra.
+  assert (xt * xt <= u * (R * R)) by nra.
+  assert (yt * yt <= v * (R * R)) by nra.
+  assert (0 < R * R) by nra.
+  nra.
+Qed.
+
+(* ---------- the grid drivers' fast paths never change the count ---------- *)
+Lemma in_skip_box_false r dx dy pxmin pymin :
+  in_skip_box r dx dy pxmin pymin = false ->
+  pxmin + dx <= - r - half * dx \/ r + half * dx <= pxmin \/
+  pymin + dy <= - r - half * dy \/ r + half * dy <= pymin.
+Proof.
+  unfold in_skip_box. rewrite !andb_false_iff, !Qltb_ge. tauto.
+Qed.
+
+Lemma circ_cell_sound r pr dx dy pxmin pymin s :
+  0 <= r -> 0 <= pr -> dx * dx + dy * dy <= 4 * (pr * pr) -> 0 < dx -> 0 < dy -> (0 <= s)%Z ->
+  cell (Circle r) pr dx dy pxmin pymin s = subpix_count (Circle r) pxmin pymin (pxmin + dx) (pymin + dy) s.
+Proof.
+  intros Hr Hpr Hd Hdx Hdy Hs. rewrite subpix_count_cnt. cbn [cell].
+  assert (B : forall p, In p (sub_centres pxmin pymin (pxmin + dx) (pymin + dy) s) ->
+              pxmin < fst p < pxmin + dx /\ pymin < snd p < pymin + dy)
+    by (intros p; apply sub_centres_between; lra).
+  destruct (in_skip_box r dx dy pxmin pymin) eqn:Ebox.
+  2:{ symmetry. apply cnt_none. intros p Hp. destruct (B p Hp) as [[Bx0 Bx1] [By0 By1]].
+      apply not_inside_circle. apply in_skip_box_false in Ebox. unfold half in Ebox.
+      destruct Ebox as [E|[E|[E|E]]]; nra. }
+  set (cx := pxmin + dx * half). set (cy := pymin + dy * half).
+  (* offset of a centre from the pixel centre is at most pixel_radius *)
+  assert (O : forall p, In p (sub_centres pxmin pymin (pxmin + dx) (pymin + dy) s) ->
+              (fst p - cx) * (fst p - cx) + (snd p - cy) * (snd p - cy) <= pr * pr).
+  { intros p Hp. destruct (B p Hp) as [[Bx0 Bx1] [By0 By1]]. unfold cx, cy, half.
+    assert ((fst p - (pxmin + dx * (1 # 2))) * (fst p - (pxmin + dx * (1 # 2))) <= dx * dx * (1 # 4)) by nra.
+    assert ((snd p - (pymin + dy * (1 # 2))) * (snd p - (pymin + dy * (1 # 2))) <= dy * dy * (1 # 4)) by nra.
+    lra. }
+  destruct (Qltb 0 (r - pr) && Qltb (cx * cx + cy * cy) ((r - pr) * (r - pr))) eqn:E1.
+  - (* well within: every centre is inside *)
+    apply andb_true_iff in E1 as [E1a E1b]. apply Qltb_lt in E1a, E1b.
+    rewrite cnt_all, sub_centres_length; [nia|].
+    intros p Hp. apply inside_circle. pose proof (O p Hp) as Op.
+    pose proof (tri_lt cx cy (fst p - cx) (snd p - cy) (r - pr) pr ltac:(lra) Hpr E1b Op) as T.
+    assert (E : (cx + (fst p - cx)) * (cx + (fst p - cx)) + (cy + (snd p - cy)) * (cy + (snd p - cy))
+                == fst p * fst p + snd p * snd p) by ring.
+    assert (E' : (r - pr + pr) * (r - pr + pr) == r * r) by ring.
+    rewrite E, E' in T. exact T.
+  - destruct (Qltb 0 (r + pr) && Qltb (cx * cx + cy * cy) ((r + pr) * (r + pr))) eqn:E2.
+    + apply single_subpixel_is_count.
+    + (* fully outside: no centre is inside *)
+      symmetry. apply cnt_none. intros p Hp.
+      destruct (inside (Circle r) (fst p) (snd p)) eqn:Ein; [exfalso|reflexivity].
+      apply inside_circle in Ein. pose proof (O p Hp) as Op.
+      assert (Op' : (cx - fst p) * (cx - fst p) + (cy - snd p) * (cy - snd p) <= pr * pr)
+        by (eapply Qle_trans; [|exact Op]; apply Qle_lteq; right; ring).
+      pose proof (tri_lt (fst p) (snd p) (cx - fst p) (cy - snd p) r pr Hr Hpr Ein Op') as T.
+      assert (E : (fst p + (cx - fst p)) * (fst p + (cx - fst p)) + (snd p + (cy - snd p)) * (snd p + (cy - snd p))
+                  == cx * cx + cy * cy) by ring.
+      rewrite E in T.
+      apply andb_false_iff in E2 as [E2|E2]; apply Qltb_ge in E2; nra.
+Qed.
+
+Lemma pos_from_le k R2 W : 0 < R2 -> 0 <= W -> R2 <= k * W -> 0 < k.
+Proof.
+  intros H1 H2 H3. destruct (Qlt_le_dec 0 k) as [?|Hle]; [assumption|exfalso].
+  assert (k * W <= 0).
+  { setoid_replace (k * W) with (- ((- k) * W)) by ring.
+    pose proof (Qmult_le_0_compat (- k) W ltac:(lra) H2). lra. }
+  lra.
+Qed.
+Lemma ell_skip_contra k R2 W xx yy :
+  0 < k -> R2 <= k * W -> W <= xx -> 0 <= yy -> (xx + yy) * k < R2 -> False.
+Proof.
+  intros Hk H1 H2 H3 H4.
+  assert (k * W <= k * xx) by (apply Qmult_le_l; assumption).
+  assert (0 <= k * yy) by (apply Qmult_le_0_compat; lra).
+  assert (E : (xx + yy) * k == k * xx + k * yy) by ring. rewrite E in H4. lra.
+Qed.
+Lemma sq_le_sq u x : 0 <= u -> u <= x -> u * u <= x * x.
+Proof. intros. apply Qmult_le_compat_nonneg; split; assumption. Qed.
+Lemma sq_le_sq_neg u x : 0 <= u -> x <= - u -> u * u <= x * x.
+Proof.
+  intros. setoid_replace (x * x) with ((- x) * (- x)) by ring. apply sq_le_sq; lra.
+Qed.
+
+Lemma ell_cell_sound a b c s_ pr dx dy pxmin pymin s :
+  0 < a -> 0 < b -> 0 < dx -> 0 < dy ->
+  Qmax a b * Qmax a b <= (c * c + s_ * s_) * ((Qmax a b + half * dx) * (Qmax a b + half * dx)) ->
+  Qmax a b * Qmax a b <= (c * c + s_ * s_) * ((Qmax a b + half * dy) * (Qmax a b + half * dy)) ->
+  cell (Ellipse a b c s_) pr dx dy pxmin pymin s
+  = subpix_count (Ellipse a b c s_) pxmin pymin (pxmin + dx) (pymin + dy) s.
+Proof.
+  intros Ha Hb Hdx Hdy Kx Ky. rewrite subpix_count_cnt. cbn [cell].
+  destruct (in_skip_box (Qmax a b) dx dy pxmin pymin) eqn:Ebox; [apply single_subpixel_is_count|].
+  symmetry. apply cnt_none. intros p Hp.
+  destruct (sub_centres_between pxmin pymin (pxmin + dx) (pymin + dy) s p ltac:(lra) ltac:(lra) Hp)
+    as [[Bx0 Bx1] [By0 By1]].
+  destruct (inside (Ellipse a b c s_) (fst p) (snd p)) eqn:Ein; [exfalso|reflexivity].
+  apply ell_inside_bound in Ein; [|assumption|assumption].
+  pose proof (Q.le_max_l a b) as Ra. set (R := Qmax a b) in *. set (k := c * c + s_ * s_) in *.
+  assert (HR : 0 < R) by lra.
+  assert (HRR : 0 < R * R) by (apply Qmult_lt_0_compat; assumption).
+  set (x := fst p) in *. set (y := snd p) in *.
+  pose proof (Qsq_nonneg x) as Hxx. pose proof (Qsq_nonneg y) as Hyy.
+  assert (Hk : 0 < k) by (apply (pos_from_le k (R * R) _ HRR (Qsq_nonneg (R + half * dx)) Kx)).
+  apply in_skip_box_false in Ebox. unfold half in *.
+  assert (Hux : 0 <= R + (1 # 2) * dx) by lra. assert (Huy : 0 <= R + (1 # 2) * dy) by lra.
+  destruct Ebox as [E|[E|[E|E]]].
+  - apply (ell_skip_contra k (R * R) _ (x * x) (y * y) Hk Kx); [apply sq_le_sq_neg; lra|assumption|assumption].
+  - apply (ell_skip_contra k (R * R) _ (x * x) (y * y) Hk Kx); [apply sq_le_sq; lra|assumption|assumption].
+  - apply (ell_skip_contra k (R * R) _ (y * y) (x * x) Hk Ky); [apply sq_le_sq_neg; lra|assumption|].
+    setoid_replace (y * y + x * x) with (x * x + y * y) by ring. assumption.
+  - apply (ell_skip_contra k (R * R) _ (y * y) (x * x) Hk Ky); [apply sq_le_sq; lra|assumption|].
+    setoid_replace (y * y + x * x) with (x * x + y * y) by ring. assumption.
+Qed.
+
+Lemma rect_cell_sound w h c s_ pr dx dy pxmin pymin s :
+  cell (Rect w h c s_) pr dx dy pxmin pymin s
+  = subpix_count (Rect w h c s_) pxmin pymin (pxmin + dx) (pymin + dy) s.
+Proof. cbn [cell]. apply single_subpixel_is_count. Qed.
+
+(* ---------- annulus: the constructors' parameter relations imply containment ---------- *)
+Lemma circle_contained r1 r2 x y : 0 <= r1 -> r1 <= r2 ->
   inside (Circle r1) x y = true -> inside (Circle r2) x y = true.
 Proof.
-  cbn. rewrite !Qltb_lt. intros H0 H1 H. assert ((r1 * r1 <= r2 * r2)%Q) by nra. lra.
+  rewrite !inside_circle. intros H0 H1 H. assert (r1 * r1 <= r2 * r2) by nra. lra.
 Qed.
 
-Lemma rect_contained w1 h1 w2 h2 c s x y : (w1 <= w2)%Q -> (h1 <= h2)%Q ->
+Lemma ellipse_contained a1 b1 a2 b2 c s x y : 0 < a1 -> 0 < b1 -> a1 <= a2 -> b1 <= b2 ->
+  inside (Ellipse a1 b1 c s) x y = true -> inside (Ellipse a2 b2 c s) x y = true.
+Proof.
+  intros Ha Hb Haa Hbb. cbn [inside]. rewrite !Qltb_lt.
+  set (xt := y * s + x * c). set (yt := y * c - x * s). intros H.
+  pose proof (div_sq_mul (xt * xt) a1 ltac:(lra)) as Eu1.
+  pose proof (div_sq_mul (yt * yt) b1 ltac:(lra)) as Ev1.
+  pose proof (div_sq_mul (xt * xt) a2 ltac:(lra)) as Eu2.
+  pose proof (div_sq_mul (yt * yt) b2 ltac:(lra)) as Ev2.
+  set (u1 := xt * xt / (a1 * a1)) in *. set (v1 := yt * yt / (b1 * b1)) in *.
+  set (u2 := xt * xt / (a2 * a2)) in *. set (v2 := yt * yt / (b2 * b2)) in *.
+  assert (0 < a1 * a1) by nra. assert (0 < b1 * b1) by nra.
+  assert (a1 * a1 <= a2 * a2) by nra. assert (b1 * b1 <= b2 * b2) by nra.
+  assert (0 <= u1) by nra. assert (0 <= v1) by nra.
+  assert (u2 <= u1).
+  { destruct (Qlt_le_dec u1 u2) as [Hlt|?]; [exfalso|assumption]. nra. }
+  assert (v2 <= v1).
+  { destruct (Qlt_le_dec v1 v2) as [Hlt|?]; [exfalso|assumption]. nra. }
+  lra.
+Qed.
+
+Lemma rect_contained w1 h1 w2 h2 c s x y : w1 <= w2 -> h1 <= h2 ->
   inside (Rect w1 h1 c s) x y = true -> inside (Rect w2 h2 c s) x y = true.
 Proof.
-  cbn. rewrite !andb_true_iff, !Qltb_lt. intros Hw Hh [H1 H2]. split.
-  - assert ((w1 / 2 <= w2 / 2)%Q) by (unfold Qdiv; apply Qmult_le_compat_r; [exact Hw|discriminate]). lra.
-  - assert ((h1 / 2 <= h2 / 2)%Q) by (unfold Qdiv; apply Qmult_le_compat_r; [exact Hh|discriminate]). lra.
+  cbn [inside]. rewrite !andb_true_iff, !Qltb_lt. intros Hw Hh [H1 H2]. split.
+  - assert (w1 / 2 <= w2 / 2) by (unfold Qdiv; apply Qmult_le_compat_r; [exact Hw|discriminate]). lra.
+  - assert (h1 / 2 <= h2 / 2) by (unfold Qdiv; apply Qmult_le_compat_r; [exact Hh|discriminate]). lra.
 Qed.
+
+(* ---------- the grid handed to the kernels ---------- *)
+Lemma nth_map_seq {A} (f : nat -> A) n j d : (j < n)%nat -> nth j (map f (seq 0 n)) d = f j.
+Proof.
+  intros H. rewrite (nth_indep _ d (f 0%nat)) by (rewrite map_length, seq_length; exact H).
+  rewrite map_nth, seq_nth by exact H. reflexivity.
+Qed.
+
+Lemma inject_Z_minus a b : inject_Z (a - b) == inject_Z a - inject_Z b.
+Proof. unfold Z.sub. rewrite inject_Z_plus, inject_Z_opp. reflexivity. Qed.
+
+(* dx = dy = 1 exactly, and cell [j][i] is image pixel (iymin+j, ixmin+i) recentred on the position *)
+Lemma centered_edges_unit b px py :
+  (ixmin b < ixmax b)%Z -> (iymin b < iymax b)%Z ->
+  let '(xmin, xmax, ymin, ymax) := centered_edges b px py in
+  (xmax - xmin) / inject_Z (ixmax b - ixmin b) == 1 /\
+  (ymax - ymin) / inject_Z (iymax b - iymin b) == 1 /\
+  xmin == inject_Z (ixmin b) - half - px /\ ymin == inject_Z (iymin b) - half - py.
+Proof.
+  intros Hx Hy. cbn [centered_edges].
+  assert (Nx : 0 < inject_Z (ixmax b - ixmin b)) by (change 0 with (inject_Z 0); rewrite <- Zlt_Qlt; lia).
+  assert (Ny : 0 < inject_Z (iymax b - iymin b)) by (change 0 with (inject_Z 0); rewrite <- Zlt_Qlt; lia).
+  repeat split; try reflexivity.
+  - rewrite inject_Z_minus in *. field. lra.
+  - rewrite inject_Z_minus in *. field. lra.
+Qed.
+
+Lemma mask_counts_dims sh b px py s :
+  length (mask_counts sh b px py s) = Z.to_nat (iymax b - iymin b) /\
+  forall row, In row (mask_counts sh b px py s) -> length row = Z.to_nat (ixmax b - ixmin b).
+Proof.
+  unfold mask_counts, centered_edges, overlap_grid. split.
+  - rewrite map_length, seq_length. reflexivity.
+  - intros row Hr. apply in_map_iff in Hr as (j & <- & _). rewrite map_length, seq_length. reflexivity.
+Qed.
+
+(* ---------- the mask entry of a pixel, by definition: number of sub-pixel centres (in image
+   coordinates) of pixel (Y, X) that lie strictly inside the shape centred on (px, py) ---------- *)
+Definition pixel_centres (px py : Q) (s : Z) (Y X : Z) : list (Q * Q) :=
+  flat_map (fun a => map (fun b_ =>
+              (inject_Z X - half + (inject_Z (Z.of_nat a) + half) / inject_Z s - px,
+               inject_Z Y - half + (inject_Z (Z.of_nat b_) + half) / inject_Z s - py))
+            (seq 0 (Z.to_nat s))) (seq 0 (Z.to_nat s)).
+Definition pixel_count (sh : shape) (px py : Q) (s : Z) (Y X : Z) : Z := cnt sh (pixel_centres px py s Y X).
+
+Lemma cnt_flat_map_ext {A B} sh (f g : A -> B -> Q * Q) (l1 : list A) (l2 : list B) :
+  (forall a b_, fst (f a b_) == fst (g a b_) /\ snd (f a b_) == snd (g a b_)) ->
+  cnt sh (flat_map (fun a => map (f a) l2) l1) = cnt sh (flat_map (fun a => map (g a) l2) l1).
+Proof.
+  intros H. induction l1 as [|a l1 IH]; [reflexivity|]. cbn [flat_map]. rewrite !cnt_app, IH. f_equal.
+  apply cnt_map_ext. intros b_ _. apply H.
+Qed.
+
+Lemma pixel_radius_ok : 1 * 1 + 1 * 1 <= 4 * (pixel_radius * pixel_radius) /\ 0 <= pixel_radius.
+Proof. split; unfold Qle; vm_compute; discriminate. Qed.
+
+Lemma cell_is_count sh pr dx dy pxmin pymin s :
+  rot_ok sh = true -> dx == 1 -> dy == 1 -> 0 <= pr -> 1 * 1 + 1 * 1 <= 4 * (pr * pr) -> (0 <= s)%Z ->
+  cell sh pr dx dy pxmin pymin s = subpix_count sh pxmin pymin (pxmin + dx) (pymin + dy) s.
+Proof.
+  intros Hok Hdx Hdy Hpr0 Hpr Hs. destruct sh as [r|a b c s_|w h c s_].
+  - cbn [rot_ok] in Hok. apply Qle_bool_iff in Hok.
+    apply circ_cell_sound; try assumption; rewrite ?Hdx, ?Hdy; lra.
+  - cbn [rot_ok] in Hok. apply andb_true_iff in Hok as [Hok K]. apply andb_true_iff in Hok as [Ha Hb].
+    apply Qltb_lt in Ha, Hb. apply Qle_bool_iff in K.
+    apply ell_cell_sound; try assumption; rewrite ?Hdx, ?Hdy; lra.
+  - apply rect_cell_sound.
+Qed.
+
+(* to_mask(center/subpixel) = fraction of sub-pixel centres inside the shape, pixel by pixel *)
+Lemma mask_is_centre_fraction sh b px py s j i :
+  rot_ok sh = true -> (0 < s)%Z ->
+  (j < Z.to_nat (iymax b - iymin b))%nat -> (i < Z.to_nat (ixmax b - ixmin b))%nat ->
+  nth i (nth j (mask_counts sh b px py s) []) 0%Z
+  = pixel_count sh px py s (iymin b + Z.of_nat j) (ixmin b + Z.of_nat i).
+Proof.
+  intros Hok Hs Hj Hi.
+  assert (Hx : (ixmin b < ixmax b)%Z) by lia. assert (Hy : (iymin b < iymax b)%Z) by lia.
+  pose proof (centered_edges_unit b px py Hx Hy) as CE.
+  unfold mask_counts. destruct (centered_edges b px py) as [[[xmin xmax] ymin] ymax] eqn:Ece.
+  destruct CE as (Hdx & Hdy & Hxmin & Hymin).
+  unfold overlap_grid. rewrite (nth_map_seq _ _ j) by exact Hj. rewrite (nth_map_seq _ _ i) by exact Hi.
+  set (dx := (xmax - xmin) / inject_Z (ixmax b - ixmin b)) in *.
+  set (dy := (ymax - ymin) / inject_Z (iymax b - iymin b)) in *.
+  destruct pixel_radius_ok as [P1 P0].
+  rewrite (cell_is_count sh pixel_radius dx dy _ _ s Hok Hdx Hdy P0 P1 ltac:(lia)).
+  rewrite subpix_count_cnt. unfold sub_centres, pixel_count, pixel_centres.
+  apply cnt_flat_map_ext. intros a b_. cbn [fst snd]. unfold sub_coord.
+  assert (Ns : ~ inject_Z s == 0).
+  { intros E. assert (0 < inject_Z s) by (change 0 with (inject_Z 0); rewrite <- Zlt_Qlt; lia). lra. }
+  rewrite !inject_Z_plus. split.
+  - setoid_replace (xmin + inject_Z (Z.of_nat i) * dx + dx - (xmin + inject_Z (Z.of_nat i) * dx)) with dx by ring.
+    rewrite Hdx, Hxmin. field. exact Ns.
+  - setoid_replace (ymin + inject_Z (Z.of_nat j) * dy + dy - (ymin + inject_Z (Z.of_nat j) * dy)) with dy by ring.
+    rewrite Hdy, Hymin. field. exact Ns.
+Qed.
+
+(* ---------- the shape lies within the extents handed to from_float ---------- *)
+Lemma circle_within_extents r x y :
+  inside (Circle r) x y = true -> x * x <= fst (extents_sq (Circle r)) /\ y * y <= snd (extents_sq (Circle r)).
+Proof.
+  rewrite inside_circle. cbn [extents_sq fst snd]. intros H.
+  pose proof (Qsq_nonneg x). pose proof (Qsq_nonneg y). split; lra.
+Qed.
+
+Lemma lagrange p q_ A B : (p * p + q_ * q_) * (A * A + B * B) == (p * A - q_ * B) * (p * A - q_ * B) + (p * B + q_ * A) * (p * B + q_ * A).
+Proof. ring. Qed.
+
+Lemma ellipse_within_extents a b c s x y :
+  0 < a -> 0 < b -> c * c + s * s == 1 -> inside (Ellipse a b c s) x y = true ->
+  x * x <= fst (extents_sq (Ellipse a b c s)) /\ y * y <= snd (extents_sq (Ellipse a b c s)).
+Proof.
+  intros Ha Hb Hk H. cbn [inside] in H. apply Qltb_lt in H. cbn [extents_sq fst snd].
+  set (xt := y * s + x * c) in *. set (yt := y * c - x * s) in *.
+  set (p := xt / a). set (q_ := yt / b).
+  assert (Ep : xt == p * a) by (unfold p; field; lra).
+  assert (Eq_ : yt == q_ * b) by (unfold q_; field; lra).
+  assert (Hpq : p * p + q_ * q_ < 1).
+  { eapply Qle_lt_trans; [|exact H]. apply Qle_lteq. right. unfold p, q_. field. split; lra. }
+  assert (Ex : x == p * (a * c) - q_ * (b * s)).
+  { setoid_replace (p * (a * c) - q_ * (b * s)) with ((p * a) * c - (q_ * b) * s) by ring.
+    rewrite <- Ep, <- Eq_. unfold xt, yt.
+    setoid_replace ((y * s + x * c) * c - (y * c - x * s) * s) with (x * (c * c + s * s)) by ring.
+    rewrite Hk. ring. }
+  assert (Ey : y == p * (a * s) + q_ * (b * c)).
+  { setoid_replace (p * (a * s) + q_ * (b * c)) with ((p * a) * s + (q_ * b) * c) by ring.
+    rewrite <- Ep, <- Eq_. unfold xt, yt.
+    setoid_replace ((y * s + x * c) * s + (y * c - x * s) * c) with (y * (c * c + s * s)) by ring.
+    rewrite Hk. ring. }
+  pose proof (Qsq_nonneg p). pose proof (Qsq_nonneg q_).
+  split.
+  - pose proof (lagrange p q_ (a * c) (b * s)) as L.
+    pose proof (Qsq_nonneg (p * (b * s) + q_ * (a * c))) as Z.
+    pose proof (Qsq_nonneg (a * c)). pose proof (Qsq_nonneg (b * s)).
+    set (E := a * c * (a * c) + b * s * (b * s)) in *.
+    assert (x * x <= (p * p + q_ * q_) * E) by (rewrite L, Ex; lra).
+    assert ((p * p + q_ * q_) * E <= 1 * E) by (apply Qmult_le_compat_r; [lra|unfold E; lra]).
+    lra.
+  - pose proof (lagrange p (- q_) (a * s) (b * c)) as L.
+    pose proof (Qsq_nonneg (p * (b * c) + - q_ * (a * s))) as Z.
+    pose proof (Qsq_nonneg (a * s)). pose proof (Qsq_nonneg (b * c)).
+    set (E := a * s * (a * s) + b * c * (b * c)) in *.
+    assert (Ey' : y == p * (a * s) - - q_ * (b * c)) by (rewrite Ey; ring).
+    assert (En : - q_ * - q_ == q_ * q_) by ring.
+    assert (y * y <= (p * p + - q_ * - q_) * E) by (rewrite L, Ey'; lra).
+    assert ((p * p + - q_ * - q_) * E <= 1 * E) by (apply Qmult_le_compat_r; [lra|unfold E; lra]).
+    lra.
+Qed.
+
+(* ---------- annulus = outer minus inner ---------- *)
+(* the relations the annulus constructors enforce between inner and outer parameters
+   (r_in < r_out; a_in < a_out and b_in < b_out or b_in = b_out*a_in/a_out; same for w, h; one theta) *)
+Definition annulus_params (o i : shape) : Prop :=
+  match o, i with
+  | Circle r2, Circle r1 => 0 <= r1 /\ r1 <= r2
+  | Ellipse a2 b2 c s, Ellipse a1 b1 c' s' => c' = c /\ s' = s /\ 0 < a1 /\ 0 < b1 /\ a1 <= a2 /\ b1 <= b2
+  | Rect w2 h2 c s, Rect w1 h1 c' s' => c' = c /\ s' = s /\ w1 <= w2 /\ h1 <= h2
+  | _, _ => False
+  end.
+
+Lemma annulus_contained o i : annulus_params o i -> forall x y, inside i x y = true -> inside o x y = true.
+Proof.
+  destruct o as [r2|a2 b2 c s|w2 h2 c s], i as [r1|a1 b1 c' s'|w1 h1 c' s']; cbn [annulus_params]; try tauto.
+  - intros [H0 H1] x y. apply circle_contained; assumption.
+  - intros (-> & -> & Ha & Hb & Haa & Hbb) x y. apply ellipse_contained; assumption.
+  - intros (-> & -> & Hw & Hh) x y. apply rect_contained; assumption.
+Qed.
+
+Lemma annulus_pixel o i x0 y0 x1 y1 s :
+  (forall x y, inside i x y = true -> inside o x y = true) -> (0 <= s)%Z ->
+  (subpix_count o x0 y0 x1 y1 s - subpix_count i x0 y0 x1 y1 s
+   = cnt_diff o i (sub_centres x0 y0 x1 y1 s))%Z /\
+  (0 <= subpix_count o x0 y0 x1 y1 s - subpix_count i x0 y0 x1 y1 s <= s * s)%Z.
+Proof.
+  intros H Hs. rewrite !subpix_count_cnt.
+  assert (E := cnt_sub o i (sub_centres x0 y0 x1 y1 s) (fun p _ => H (fst p) (snd p))).
+  split; [exact E|]. rewrite E. pose proof (cnt_diff_range o i (sub_centres x0 y0 x1 y1 s)) as R.
+  rewrite sub_centres_length in R. nia.
+Qed.
+
+Lemma nth_map2 {A B C} (f : A -> B -> C) l1 l2 n d1 d2 d :
+  length l1 = length l2 -> (n < length l1)%nat ->
+  nth n (map2 f l1 l2) d = f (nth n l1 d1) (nth n l2 d2).
+Proof.
+  intros Hl Hn. unfold map2.
+  rewrite (nth_indep _ d (f d1 d2)) by (rewrite map_length, combine_length; lia).
+  change (f d1 d2) with ((fun p => f (fst p) (snd p)) (d1, d2)). rewrite map_nth, combine_nth by exact Hl.
+  reflexivity.
+Qed.
+
+Lemma pixel_centres_length px py s Y X : length (pixel_centres px py s Y X) = (Z.to_nat s * Z.to_nat s)%nat.
+Proof.
+  unfold pixel_centres. rewrite (flat_map_length_const _ _ (Z.to_nat s)).
+  - rewrite seq_length. reflexivity.
+  - intros a. rewrite map_length, seq_length. reflexivity.
+Qed.
+
+(* annulus mask entry = number of sub-pixel centres in outer \ inner; within [0, s^2] *)
+Lemma annulus_mask_entry o i b px py s j k :
+  annulus_params o i -> rot_ok o = true -> rot_ok i = true -> (0 < s)%Z ->
+  (j < Z.to_nat (iymax b - iymin b))%nat -> (k < Z.to_nat (ixmax b - ixmin b))%nat ->
+  let e := nth k (nth j (img_sub (mask_counts o b px py s) (mask_counts i b px py s)) []) 0%Z in
+  e = cnt_diff o i (pixel_centres px py s (iymin b + Z.of_nat j) (ixmin b + Z.of_nat k)) /\ (0 <= e <= s * s)%Z.
+Proof.
+  intros Hp Ho Hi Hs Hj Hk. cbv zeta.
+  destruct (mask_counts_dims o b px py s) as [Lo Ro]. destruct (mask_counts_dims i b px py s) as [Li Ri].
+  unfold img_sub.
+  rewrite (nth_map2 _ _ _ j [] [] []) by lia.
+  assert (Ro' : length (nth j (mask_counts o b px py s) []) = Z.to_nat (ixmax b - ixmin b))
+    by (apply Ro, nth_In; lia).
+  assert (Ri' : length (nth j (mask_counts i b px py s) []) = Z.to_nat (ixmax b - ixmin b))
+    by (apply Ri, nth_In; lia).
+  rewrite (nth_map2 _ _ _ k 0%Z 0%Z 0%Z) by lia.
+  rewrite !mask_is_centre_fraction by assumption. unfold pixel_count.
+  assert (E := cnt_sub o i (pixel_centres px py s (iymin b + Z.of_nat j) (ixmin b + Z.of_nat k))
+                 (fun p _ => annulus_contained o i Hp (fst p) (snd p))).
+  rewrite E. split; [reflexivity|].
+  pose proof (cnt_diff_range o i (pixel_centres px py s (iymin b + Z.of_nat j) (ixmin b + Z.of_nat k))) as R.
+  rewrite pixel_centres_length in R. nia.
+Qed.
+
+(* ---------- rectangle within its extents ---------- *)
+Lemma Qabs_sq z : Qabs z * Qabs z == z * z.
+Proof.
+  apply Qabs_case; intros; ring.
+Qed.
+Lemma sq_le_of_abs_le u X : Qabs u <= X -> u * u <= X * X.
+Proof.
+  intros H. rewrite <- Qabs_sq. apply sq_le_sq; [apply Qabs_nonneg|exact H].
+Qed.
+
+Lemma rect_within_extents w h c s x y :
+  0 <= w -> 0 <= h -> c * c + s * s == 1 -> inside (Rect w h c s) x y = true ->
+  x * x <= fst (extents_sq (Rect w h c s)) /\ y * y <= snd (extents_sq (Rect w h c s)).
+Proof.
+  intros Hw Hh Hk H. cbn [inside] in H. apply andb_true_iff in H as [H1 H2]. apply Qltb_lt in H1, H2.
+  cbn [extents_sq fst snd].
+  set (xt := y * s + x * c) in *. set (yt := y * c - x * s) in *.
+  set (hw := w / 2) in *. set (hh := h / 2) in *.
+  assert (Ex : x == xt * c - yt * s).
+  { unfold xt, yt. setoid_replace ((y * s + x * c) * c - (y * c - x * s) * s) with (x * (c * c + s * s)) by ring.
+    rewrite Hk. ring. }
+  assert (Ey : y == xt * s + yt * c).
+  { unfold xt, yt. setoid_replace ((y * s + x * c) * s + (y * c - x * s) * c) with (y * (c * c + s * s)) by ring.
+    rewrite Hk. ring. }
+  assert (B1 : - hw < xt < hw) by (revert H1; apply Qabs_case; intros; lra).
+  assert (B2 : - hh < yt < hh) by (revert H2; apply Qabs_case; intros; lra).
+  split; apply sq_le_of_abs_le.
+  - rewrite Ex.
+    pose proof (Q.le_max_l (Qabs (hw * c - hh * s)) (Qabs (hw * c + hh * s))) as M1.
+    pose proof (Q.le_max_r (Qabs (hw * c - hh * s)) (Qabs (hw * c + hh * s))) as M2.
+    set (X := Qmax _ _) in *.
+    pose proof (Qle_Qabs (hw * c - hh * s)) as A1. pose proof (Qle_Qabs (- (hw * c - hh * s))) as A2.
+    pose proof (Qle_Qabs (hw * c + hh * s)) as A3. pose proof (Qle_Qabs (- (hw * c + hh * s))) as A4.
+    rewrite Qabs_opp in A2, A4.
+    apply Qabs_case; intros _; destruct (Qlt_le_dec c 0), (Qlt_le_dec s 0); nra.
+  - rewrite Ey.
+    pose proof (Q.le_max_l (Qabs (hw * s + hh * c)) (Qabs (hw * s - hh * c))) as M1.
+    pose proof (Q.le_max_r (Qabs (hw * s + hh * c)) (Qabs (hw * s - hh * c))) as M2.
+    set (X := Qmax _ _) in *.
+    pose proof (Qle_Qabs (hw * s + hh * c)) as A1. pose proof (Qle_Qabs (- (hw * s + hh * c))) as A2.
+    pose proof (Qle_Qabs (hw * s - hh * c)) as A3. pose proof (Qle_Qabs (- (hw * s - hh * c))) as A4.
+    rewrite Qabs_opp in A2, A4.
+    apply Qabs_case; intros _; destruct (Qlt_le_dec c 0), (Qlt_le_dec s 0); nra.
+Qed.
+
+(* ---------- the box contains the shape ---------- *)
+Definition unit_rot (sh : shape) : Prop :=
+  match sh with
+  | Circle r => 0 <= r
+  | Ellipse a b c s => 0 < a /\ 0 < b /\ c * c + s * s == 1
+  | Rect w h c s => 0 <= w /\ 0 <= h /\ c * c + s * s == 1
+  end.
+
+Lemma shape_within_extents sh x y : unit_rot sh -> inside sh x y = true ->
+  x * x <= fst (extents_sq sh) /\ y * y <= snd (extents_sq sh).
+Proof.
+  destruct sh as [r|a b c s|w h c s]; cbn [unit_rot].
+  - intros _. apply circle_within_extents.
+  - intros (Ha & Hb & Hk). apply ellipse_within_extents; assumption.
+  - intros (Hw & Hh & Hk). apply rect_within_extents; assumption.
+Qed.
+
+Lemma abs_le_of_sq_le u e : 0 <= e -> u * u <= e * e -> - e <= u <= e.
+Proof.
+  intros He H. split.
+  - destruct (Qlt_le_dec u (- e)) as [Hlt|?]; [exfalso|assumption].
+    assert (e * e < u * u) by (setoid_replace (u * u) with ((- u) * (- u)) by ring; nra). lra.
+  - destruct (Qlt_le_dec e u) as [Hlt|?]; [exfalso|assumption].
+    assert (e * e < u * u) by nra. lra.
+Qed.
+
+(* every point of the shape centred on (px,py) lies in the pixel box returned for extents (ex, ey)
+   that dominate the exact ones; by from_float_minimal this box is the smallest such integer box *)
+Lemma bbox_contains_shape sh px py ex ey X Y :
+  unit_rot sh -> 0 <= ex -> 0 <= ey ->
+  fst (extents_sq sh) <= ex * ex -> snd (extents_sq sh) <= ey * ey ->
+  inside sh (X - px) (Y - py) = true ->
+  let b := from_float (px - ex) (px + ex) (py - ey) (py + ey) in
+  inject_Z (ixmin b) - half <= X <= inject_Z (ixmax b) - half /\
+  inject_Z (iymin b) - half <= Y <= inject_Z (iymax b) - half.
+Proof.
+  intros Hu Hex Hey H1 H2 Hin. cbv zeta.
+  destruct (shape_within_extents sh _ _ Hu Hin) as [Sx Sy].
+  destruct (abs_le_of_sq_le (X - px) ex Hex ltac:(lra)) as [Ax0 Ax1].
+  destruct (abs_le_of_sq_le (Y - py) ey Hey ltac:(lra)) as [Ay0 Ay1].
+  destruct (from_float_contains (px - ex) (px + ex) (py - ey) (py + ey)) as (C1 & C2 & C3 & C4).
+  repeat split; lra.
+Qed.
+
+(* circles: the box is the smallest integer pixel box containing the open disc *)
+Lemma open_interval_lower (c r m : Q) : 0 < r -> (forall t, (t - c) * (t - c) < r * r -> m <= t) -> m <= c - r.
+Proof.
+  intros Hr H. destruct (Qlt_le_dec (c - r) m) as [Hlt|?]; [exfalso|assumption].
+  destruct (Qlt_le_dec c m) as [Hc|Hc].
+  - specialize (H c). assert ((c - c) * (c - c) < r * r) by nra. specialize (H H0). lra.
+  - set (t := (c - r + m) / 2). assert (Et : t * 2 == c - r + m) by (unfold t; field).
+    assert ((t - c) * (t - c) < r * r) by nra. specialize (H t H0). lra.
+Qed.
+Lemma open_interval_upper (c r m : Q) : 0 < r -> (forall t, (t - c) * (t - c) < r * r -> t <= m) -> c + r <= m.
+Proof.
+  intros Hr H. destruct (Qlt_le_dec m (c + r)) as [Hlt|?]; [exfalso|assumption].
+  destruct (Qlt_le_dec m c) as [Hc|Hc].
+  - specialize (H c). assert ((c - c) * (c - c) < r * r) by nra. specialize (H H0). lra.
+  - set (t := (c + r + m) / 2). assert (Et : t * 2 == c + r + m) by (unfold t; field).
+    assert ((t - c) * (t - c) < r * r) by nra. specialize (H t H0). lra.
+Qed.
+
+Lemma circle_bbox_minimal r px py (a0 a1 c0 c1 : Z) :
+  0 < r ->
+  (forall X Y, inside (Circle r) (X - px) (Y - py) = true ->
+     inject_Z a0 - half <= X <= inject_Z a1 - half /\ inject_Z c0 - half <= Y <= inject_Z c1 - half) ->
+  let b := from_float (px - r) (px + r) (py - r) (py + r) in
+  (a0 <= ixmin b /\ ixmax b <= a1 /\ c0 <= iymin b /\ iymax b <= c1)%Z.
+Proof.
+  intros Hr H. apply from_float_minimal.
+  - apply open_interval_lower; [exact Hr|]. intros t Ht.
+    apply (H t py). apply inside_circle. setoid_replace (py - py) with 0 by ring. lra.
+  - apply open_interval_upper; [exact Hr|]. intros t Ht.
+    apply (H t py). apply inside_circle. setoid_replace (py - py) with 0 by ring. lra.
+  - apply open_interval_lower; [exact Hr|]. intros t Ht.
+    apply (H px t). apply inside_circle. setoid_replace (px - px) with 0 by ring. lra.
+  - apply open_interval_upper; [exact Hr|]. intros t Ht.
+    apply (H px t). apply inside_circle. setoid_replace (px - px) with 0 by ring. lra.
+Qed.
+
+Lemma from_float_smallest xmin xmax ymin ymax :
+  let b := from_float xmin xmax ymin ymax in
+  (inject_Z (ixmin b) - half <= xmin /\ xmax <= inject_Z (ixmax b) - half /\
+   inject_Z (iymin b) - half <= ymin /\ ymax <= inject_Z (iymax b) - half) /\
+  (forall a0 a1 c0 c1 : Z,
+     inject_Z a0 - half <= xmin -> xmax <= inject_Z a1 - half ->
+     inject_Z c0 - half <= ymin -> ymax <= inject_Z c1 - half ->
+     (a0 <= ixmin b /\ ixmax b <= a1 /\ c0 <= iymin b /\ iymax b <= c1)%Z).
+Proof.
+  split; [apply from_float_contains|]. intros. apply from_float_minimal; assumption.
+Qed.
+
+Lemma center_is_subpixel_1_any s rect : translate_mode 0 s rect = translate_mode 1 1 rect.
+Proof. destruct rect; reflexivity. Qed.
